@@ -308,9 +308,8 @@ class Session:
             p["valid_network_reached"] += 1
         elif len(violated) == 1:
             p["sole_violation:" + next(iter(violated))] += 1
-        elif violated <= {"3", "4", "5"} or violated <= {"2", "3", "4"} or violated <= {"2", "3", "5"}:
-            if "3" in violated:
-                p["cond3_with_minimal_company"] += 1
+        elif "3" in violated and (violated <= {"3", "4", "5"} or violated <= {"2", "3", "4"} or violated <= {"2", "3", "5"}):
+            p["cond3_with_minimal_company"] += 1  # (3) can never be the only violated condition
         if self.was_valid is not None and self.was_valid != exp_ok:
             p["valid_to_invalid" if self.was_valid else "invalid_to_valid"] += 1
         self.was_valid = exp_ok
